@@ -1035,12 +1035,15 @@ class Interp(object):
         raise Unsupported("truth value of a tensor element")
       return self.branch(v.e != 0)
     if isinstance(v, (Obj,)):
-      f, _ = v.cls.lookup("__bool__")
-      if f is not None:
-        return self.truth(self.call(BoundMethod(v, f), [], {}))
-      f, _ = v.cls.lookup("__len__")
-      if f is not None:
-        return self.truth(self.compare(ast.NotEq(), self.call(BoundMethod(v, f), [], {}), 0))
+      if v.attrs.get("__var__") is True:
+        return self.truth(self.deref(v))
+      if isinstance(v.cls, ClassVal):
+        f, _ = v.cls.lookup("__bool__")
+        if f is not None:
+          return self.truth(self.call(BoundMethod(v, f), [], {}))
+        f, _ = v.cls.lookup("__len__")
+        if f is not None:
+          return self.truth(self.compare(ast.NotEq(), self.call(BoundMethod(v, f), [], {}), 0))
       if "__truth__" in v.attrs:
         return self.truth(v.attrs["__truth__"])
       return True
